@@ -22,6 +22,7 @@ type Oblig struct {
 	Pos    string
 	Desc   string
 	Cover  bool // a reachability probe: expected to be satisfiable (must NOT be unsat)
+	PreN   int  // for a probe placed after a call: the number of leading hypotheses that were there before the callee's postconditions
 	Axioms []*Term
 }
 
@@ -33,6 +34,7 @@ type Exec struct {
 	key       string
 	spec      *FuncSpec
 	nfresh    int
+	afterCovers map[string]int
 	genCtr    int
 	obligs    []*Oblig
 	notes     map[string]bool
